@@ -160,6 +160,7 @@ fn main() {
                     (Violation::new(f.fingerprint, f.decoded, f.expected, f.observed), payload, count)
                 })
                 .collect();
+            let sample_stage_name = name.clone();
             ctx.custom(Custom {
                 name,
                 evaluations: r.cases,
@@ -168,7 +169,21 @@ fn main() {
                 transitions: r.cases,
                 exhaustive: !capped,
                 capped: if capped { Some(format!("time_limit={}s", limit.as_secs())) } else { None },
-                samples: Vec::new(),
+                samples: {
+                    // actual cases of this stage, written out: the first, a middle and the last one
+                    let mut v = Vec::new();
+                    if let Some(si) = (0..plan.n_stages()).find(|si| plan.stage_name(*si) == sample_stage_name) {
+                        for c in [0, r.cases / 2, r.cases.saturating_sub(1)] {
+                            let d = plan.describe(si, c).0;
+                            let mut end = d.len().min(300);
+                            while !d.is_char_boundary(end) {
+                                end -= 1;
+                            }
+                            v.push(d[..end].to_string());
+                        }
+                    }
+                    v
+                },
                 extra,
                 found,
                 wall_s: r.wall_s,
